@@ -85,7 +85,7 @@ type gtx struct {
 	aborted    bool
 	ended      bool
 	CommitReqs int
-	log        []string
+	afterFence bool // TryCommit returned nil although the client had already been told PRODUCER_FENCED
 }
 
 type gclient struct {
@@ -96,6 +96,7 @@ type gclient struct {
 	recs   []*grec
 	calls  []string // call log for violation texts / outcomes
 	closed bool
+	fenced bool // some call or promise of this client returned PRODUCER_FENCED
 }
 
 type genState struct {
@@ -137,6 +138,9 @@ func (st *genState) begin(g *gclient, t *netctl.Thread) {
 		g.txns = append(g.txns, &gtx{name: fmt.Sprintf("%s%d", g.name, len(g.txns))})
 		g.cur = len(g.txns) - 1
 	}
+	if errors.Is(err, kerr.ProducerFenced) {
+		g.fenced = true
+	}
 	st.mu.Unlock()
 	st.logf(g, "B=%s", errClass(err))
 }
@@ -157,6 +161,9 @@ func (st *genState) produce(g *gclient, t *netctl.Thread, part int32) {
 		r.called++
 		if r.called == 1 {
 			r.err = err
+		}
+		if errors.Is(err, kerr.ProducerFenced) {
+			g.fenced = true
 		}
 		st.mu.Unlock()
 	})
@@ -202,11 +209,16 @@ func (st *genState) end(g *gclient, t *netctl.Thread, commit bool) {
 		err := g.cl.EndTransaction(ctx, c)
 		cancel()
 		st.mu.Lock()
+		wasFenced := g.fenced
+		if errors.Is(err, kerr.ProducerFenced) {
+			g.fenced = true
+		}
 		if g.cur >= 0 {
 			tx := g.txns[g.cur]
 			if c == kgo.TryCommit {
 				tx.commitCall = true
 				tx.commitErr = err
+				tx.afterFence = err == nil && wasFenced
 			}
 			if err == nil {
 				tx.ended = true
@@ -524,6 +536,9 @@ func genFinal(x *netctl.Exec) {
 				x.Violate("outside-txn-visible", "record %s was produced while no transaction was open (promise: %v) and is visible; %s", n, r.err, calls)
 			}
 		case tx.committed:
+			if tx.afterFence && c > 0 {
+				x.Violate("fenced-producer-committed", "client %s had been told PRODUCER_FENCED, yet a later EndTransaction(TryCommit) of its transaction %s returned nil and %s is visible; %s", r.client, tx.name, n, calls)
+			}
 			if r.err == nil && c == 0 {
 				x.Violate("commit-ok-not-visible", "transaction %s: EndTransaction(TryCommit) returned nil, record %s (promise nil before the call) is not in the read_committed view; %s", tx.name, n, calls)
 			}
